@@ -293,6 +293,117 @@ def rule_r6(facts, col):
                 col.ok("C08.R6", key, body.where(bb), "stored back on every non-error path")
 
 
+def rule_r7(facts, col):
+    """carried state that is copied out of self and advanced is stored back: a `mut` local initialised from a self field (or
+    the payload of the block's state enum), updated from its own value, whose values reach neither a store into self, nor a
+    call, nor the return value, is an update of the block's state that is thrown away at the end of the call"""
+    works = list(facts.impl_bodies(BLOCK_TRAIT, "work"))
+    n_ok = 0
+    for w in works:
+        if w.from_derive:
+            continue
+        for body in [w] + adt_helpers(facts, w):
+            defs = body.defs()
+            for L, ds in defs.items():
+                if L == 0 or L <= body.argc or len(ds) < 2:
+                    continue
+                if body.locals[L]["ty"] not in ("u8", "u16", "u32", "u64", "usize", "i8", "i16", "i32", "i64", "isize", "f32", "f64", "bool"):
+                    continue
+                init = None
+                others = []
+                for dbb, si, kind, payload in ds:
+                    if kind != "rv":
+                        continue
+                    if payload["k"] == "use":
+                        p = payload["a"].get("c") or payload["a"].get("m")
+                        if p is not None and p["l"] == 1 and p["p"] and p["p"][0] == "*" and len(p["p"]) >= 2:
+                            init = (dbb, [x.get("n") if isinstance(x, dict) else x for x in p["p"][1:]])
+                            continue
+                    others.append(payload)
+                self_updates = 0
+                if init is not None and others:
+                    # values computed from L through temporaries
+                    dep = {L}
+                    ch = True
+                    while ch:
+                        ch = False
+                        for bb in body.reachable(0):
+                            for st in body.blocks[bb]["stmts"]:
+                                if st["k"] != "assign" or st["dst"]["p"] or st["dst"]["l"] in dep or st["dst"]["l"] == L:
+                                    continue
+                                rv = st["rv"]
+                                ops = [rv["a"]] if rv["k"] in ("use", "un", "cast") else [rv["a"], rv["b"]] if rv["k"] == "bin" else []
+                                if any(((o.get("c") or o.get("m")) or {}).get("l") in dep for o in ops):
+                                    dep.add(st["dst"]["l"])
+                                    ch = True
+                    for payload in others:
+                        ops = [payload["a"]] if payload["k"] in ("use", "un", "cast") else [payload["a"], payload["b"]] if payload["k"] == "bin" else []
+                        if any(((o.get("c") or o.get("m")) or {}).get("l") in dep for o in ops):
+                            self_updates += 1
+                if init is None or not self_updates:
+                    continue
+                # forward taint from L
+                tainted = {L}
+                changed = True
+                sink = None
+                while changed and sink is None:
+                    changed = False
+                    for bb in body.reachable(0):
+                        blk = body.blocks[bb]
+                        for st in blk["stmts"]:
+                            if st["k"] != "assign":
+                                continue
+                            rv = st["rv"]
+                            ops = []
+                            if rv["k"] in ("use", "un", "cast", "repeat"):
+                                ops = [rv["a"]]
+                            elif rv["k"] == "bin":
+                                ops = [rv["a"], rv["b"]]
+                            elif rv["k"] == "agg":
+                                ops = rv["ops"]
+                            elif rv["k"] in ("ref", "rawptr") and rv["p"]["l"] in tainted:
+                                ops = [{"c": {"l": rv["p"]["l"], "p": []}}]
+                            src = any(((o.get("c") or o.get("m")) or {}).get("l") in tainted for o in ops)
+                            if not src:
+                                continue
+                            if rv["k"] == "bin" and rv["op"] in ("Eq", "Ne", "Lt", "Le", "Gt", "Ge"):
+                                continue      # a comparison reads the copy, it does not keep it
+                            d = st["dst"]
+                            if d["l"] == 1 and d["p"] and d["p"][0] == "*":
+                                sink = "store into self"
+                                break
+                            if d["l"] == 0:
+                                sink = "return value"
+                                break
+                            if d["l"] not in tainted:
+                                tainted.add(d["l"])
+                                changed = True
+                        if sink:
+                            break
+                        t = blk["term"]
+                        if t["k"] == "call" and any(((a.get("c") or a.get("m")) or {}).get("l") in tainted for a in t["args"]):
+                            if not from_logging(t):
+                                sink = "call argument"
+                                break
+                key = "%s:copy of self.%s" % (body.q, ".".join(str(x) for x in init[1] if x))
+                if sink:
+                    n_ok += 1
+                    col.ok("C08.R7", key, body.where(init[0]), "advanced copy reaches a %s" % sink)
+                else:
+                    col.bad("C08.R7", key, body.where(init[0]),
+                            "a copy of carried state (self.%s) is advanced inside this call but its final value is never stored back, "
+                            "passed on or returned: the update is lost at the end of the call, so the block forgets what it had seen "
+                            "whenever its input is split at this point" % ".".join(str(x) for x in init[1] if x), {})
+    if not n_ok:
+        col.ok("C08.R7", "no-advanced-copies", "", "no work() body advances a by-value copy of its carried state")
+
+
+def from_logging(t):
+    sp = t.get("sp") or {}
+    return any(x.startswith(("log::", "debug!", "trace!", "info!", "warn!", "error!", "format_args!", "eprintln!", "println!")) or "log" in x
+               for x in sp.get("x", []))
+
+
 def run(ctx):
     facts = ctx.facts("default")
     fam = ctx.facts("family")
@@ -302,6 +413,8 @@ def run(ctx):
     rule_r3(facts, ctx)
     rule_r5(facts, ctx)
     rule_r6(facts, ctx)
+    rule_r7(facts, ctx)
+    ctx.floor("C08.R7", 1, "advanced copies of carried state (or the statement that there are none)")
     ctx.floor("C08.R5", 1, "RationalResampler's counted consume")
     ctx.floor("C08.R6", 1, "Il2pDeframer's state swap")
     rule_r4(facts, ctx)
